@@ -212,21 +212,31 @@ def build_vmdk_disk(chain, rng, work, grain=8, hint_mode="same"):
     sub = {"same": d, "sibling": os.path.join(os.path.dirname(d), os.path.basename(d) + "-parent")}
     host = []
     names = []
+    split = rng.randrange(1, n) if (n > 1 and rng.random() < 0.7) else 0   # two extents per layer: cells [0, split) and [split, n)
     for i, layer in enumerate(chain):
         is_base = i == len(chain) - 1
-        pos = [p + 1 for p in _perm(rng, n)]
-        ents = [("D", pos[c]) if layer[c] == "H" else ("Z", 0) if layer[c] == "Z" else ("U", 0) for c in range(n)]
-        gtes = 4
-        present = [True] * (-(-n // gtes))
-        ext_name = f"disk{i}-s001.vmdk"
-        desc_name = f"disk{i}.vmdk"
-        vf, info = enc_vmdk.build_hosted(ents, present, capacity=n * grain, grain=grain, gtes=gtes, file_id=i, max_pos=n + 1,
-                                         desc=enc_vmdk.descriptor_text([f'RW {n * grain} SPARSE "{ext_name}"']))
-        # the extent's own embedded descriptor must not claim a parent; the standalone descriptor does
+        parts = [(0, n)] if not split else [(0, split), (split, n)]
+        if split and rng.random() < 0.3 and not is_base:
+            parts = [(0, n)]   # layers need not be split alike
         where = d
         if i > 0 and hint_mode == "sibling":
             where = sub["sibling"]
             os.makedirs(where, exist_ok=True)
+        lines, hrow = [], {}
+        for k, (lo, hi) in enumerate(parts):
+            m = hi - lo
+            pos = [p + 1 for p in _perm(rng, m)]
+            ents = [("D", pos[c]) if layer[lo + c] == "H" else ("Z", 0) if layer[lo + c] == "Z" else ("U", 0) for c in range(m)]
+            gtes = 4
+            present = [True] * (-(-m // gtes))
+            ext_name = f"disk{i}-s{k + 1:03d}.vmdk"
+            vf, info = enc_vmdk.build_hosted(ents, present, capacity=m * grain, grain=grain, gtes=gtes, file_id=i, max_pos=m + 1,
+                                             desc=enc_vmdk.descriptor_text([f'RW {m * grain} SPARSE "{ext_name}"']))
+            vf.materialise(os.path.join(where, ext_name))
+            lines.append(f'RW {m * grain} SPARSE "{ext_name}"')
+            for c in range(m):
+                hrow[lo + c] = info["data_base"] + pos[c] * gbytes
+        desc_name = f"disk{i}.vmdk"
         if is_base:
             hint = None
             pcid = "ffffffff"
@@ -234,12 +244,11 @@ def build_vmdk_disk(chain, rng, work, grain=8, hint_mode="same"):
             nxt_dir = sub["sibling"] if hint_mode == "sibling" else d
             hint = (f"disk{i + 1}.vmdk" if hint_mode == "same" else f"C:\\vms\\{os.path.basename(nxt_dir)}\\disk{i + 1}.vmdk")
             pcid = "12345678"
-        text = enc_vmdk.descriptor_text([f'RW {n * grain} SPARSE "{ext_name}"'], parent_cid=pcid, parent_hint=hint, cid=f"0000000{i}")
+        text = enc_vmdk.descriptor_text(lines, parent_cid=pcid, parent_hint=hint, cid=f"0000000{i}")
         with open(os.path.join(where, desc_name), "w") as f:
             f.write(text)
-        vf.materialise(os.path.join(where, ext_name))
         names.append(os.path.join(where, desc_name))
-        host.append({c: info["data_base"] + pos[c] * gbytes for c in range(n)})
+        host.append(hrow)
     top = names[0]
     return _mk_built(lambda: VMDK(Path(top)), gbytes, n, host, list(range(len(chain))), {"fmt": "vmdk", "grain": grain, "hint": hint_mode}), d
 
